@@ -461,7 +461,7 @@ def shard(seed, n, tier):
 
 
 def main(tier, seed, cases=None):
-    return simprop.standard_main(PROP, LEVEL, __name__, RULE, ASSUMPTIONS, tier, seed, cases, quick=(8, 200), thorough=(16, 2500))
+    return simprop.standard_main(PROP, LEVEL, __name__, RULE, ASSUMPTIONS, tier, seed, cases, quick=(14, 300), thorough=(16, 2500))
 
 
 def replay(path):
